@@ -1,13 +1,13 @@
 (** C09 — the helper threads' reads of the option values and of the table geometry / generation
     are ordered, by happens-before, against every write of these objects (engine thread:
-    setOptions; UCI thread: go), for every schedule of the model with a single-level
-    communicator tree (every helper is a child of the engine thread) and any number of helpers.
+    setOptions; UCI thread: go), for every schedule of the model, every number of helpers and
+    every communicator tree.
     Together with AccessProofs / HandshakeProofs: no data race on any modelled location. *)
 From Coq Require Import ZArith List Bool Arith Lia Relations.
 From Texel Require Import Workers.Workers Workers.WorkersLemmas Workers.WorkersInv Workers.WorkersInvProofs
   Workers.WorkersTac Workers.WorkersJob Workers.WorkersWake Workers.WorkersWakeProofs Workers.WorkersTheorems
   Workers.Race Workers.RaceProofs Workers.Access Workers.AccessProofs Workers.HandshakeProofs
-  Workers.HelperReads Workers.HelperReadFrames.
+  Workers.HelperReads Workers.HelperReadFrames Workers.WorkersFair.
 Import ListNotations.
 
 Ltac enum_nth H :=
@@ -17,7 +17,7 @@ Ltac enum_nth H :=
 Section R.
 Variable N : nat.
 Variable parent : tid -> option tid.
-Hypothesis Hflat : forall c, helper N c -> parent c = Some 0.
+Hypothesis Htree : tree_ok N parent.
 Notation U := (uci N).
 Notation hlp := (helper N).
 Notation lstep := (lstep N parent).
@@ -25,8 +25,11 @@ Notation xstep := (xstep N parent true).
 Notation xevents := (xevents N parent true).
 Notation xreach := (xreach N parent).
 Notation HI := (HI N).
+Notation below := (below N parent).
 
-Definition StopP (s : state) : Prop := mphase (pc (th s 0)) = Some PhStop.
+(** an access to the options / table by a thread of the sub-tree below c *)
+Definition RdSub (tr : list tev) (c : tid) (p : nat) : Prop :=
+  exists d, below c d /\ Rd tr d p.
 
 Record HR (x : xstate) (tr : list tev) : Prop := {
   r_eo : xeo x <> EOIdle -> pc (th (base x) 0) = MRdSearch \/ pc (th (base x) 0) = MClear;
@@ -34,12 +37,15 @@ Record HR (x : xstate) (tr : list tev) : Prop := {
   r_rt : forall p e, nth_error tr p = Some e -> sel opt_or_tt e = true -> hlp (ev_tid e) -> is_wr e = false;
   (* writes travel down with START_SEARCH *)
   r_a2 : forall c j, hlp c -> In (CStart j) (qu (base x) c) -> forall p, Wr tr p -> relq tr (MQ c) p;
-  r_a3 : forall c, hlp c -> job (th (base x) c) <> (-1)%Z -> forall p, Wr tr p -> seenby tr c p;
+  r_a3 : forall c, hlp c ->
+           (job (th (base x) c) <> (-1)%Z \/ fwdstart (pc (th (base x) c)) = true) ->
+           forall p, Wr tr p -> seenby tr c p;
   r_A : forall p q c, p < q -> Wr tr p -> hlp c -> Rd tr c q -> hb tr p q;
   (* reads travel up with STOP_ACK *)
-  r_b1 : forall c, hlp c -> 1 <= acks c (qu (base x) 0) -> forall p, Rd tr c p -> relq tr (MQ 0) p;
-  r_b2 : forall c, hlp c -> StopP (base x) -> ae (th (base x) c) = se (th (base x) 0) ->
-           acks c (qu (base x) 0) = 0 -> forall p, Rd tr c p -> seenby tr 0 p;
+  r_b1 : forall c pp, hlp c -> parent c = Some pp -> 1 <= acks c (qu (base x) pp) ->
+           forall p, RdSub tr c p -> relq tr (MQ pp) p;
+  r_b2 : forall c pp, hlp c -> parent c = Some pp -> ackdone (base x) pp c ->
+           forall p, RdSub tr c p -> seenby tr pp p;
   r_b3 : master_idle (base x) -> forall c p, hlp c -> Rd tr c p -> seenby tr 0 p;
   r_b4 : search (base x) = false -> forall c p, hlp c -> Rd tr c p -> relq tr ME p;
   r_B : forall p q c, p < q -> hlp c -> Rd tr c p -> Wr tr q -> hb tr p q
@@ -49,28 +55,31 @@ Record HR (x : xstate) (tr : list tev) : Prop := {
 Definition NR (B : list tev) (c : tid) : Prop :=
   forall k e, nth_error B k = Some e -> ev_tid e = c -> sel opt_or_tt e = false.
 
-(** appending a block without writes; helper [c0] may read in it provided it has seen all writes
-    and none of the "c0 is done reading" conditions holds afterwards.  Each of the knowledge
-    fields is either inherited (its condition held before) or established by the block *)
+(** what must hold after a block in which helper [c0] reads: it has seen all writes, and no
+    communicator above it holds or has taken an acknowledgement of the current round from the
+    branch that contains c0 *)
+Definition CondRead (x' : xstate) (tr : list tev) (c0 : tid) : Prop :=
+  (forall p, Wr tr p -> seenby tr c0 p) /\
+  (forall c pp, hlp c -> parent c = Some pp -> below c c0 ->
+     acks c (qu (base x') pp) = 0 /\ ~ ackdone (base x') pp c) /\
+  ~ master_idle (base x') /\ search (base x') = true.
+
+(** appending a block without writes; helper [c0] may read in it ([CondRead]).  Each of the
+    knowledge fields is either inherited (its condition held before) or established by the block *)
 Lemma HR_mono : forall x tr x' B c0, HR x tr ->
   (forall k e, nth_error B k = Some e -> wopt e = false) ->
-  (forall c, hlp c -> NR B c \/
-     (c = c0 /\ (forall p, Wr tr p -> seenby tr c0 p) /\
-      acks c0 (qu (base x') 0) = 0 /\
-      ~ (StopP (base x') /\ ae (th (base x') c0) = se (th (base x') 0)) /\
-      ~ master_idle (base x') /\ search (base x') = true)) ->
+  (forall c, hlp c -> NR B c \/ (c = c0 /\ CondRead x' tr c0)) ->
   (forall k e, nth_error B k = Some e -> sel opt_or_tt e = true -> hlp (ev_tid e) -> is_wr e = false) ->
   (xeo x' <> EOIdle -> pc (th (base x') 0) = MRdSearch \/ pc (th (base x') 0) = MClear) ->
   (forall c j, hlp c -> In (CStart j) (qu (base x') c) ->
      (exists j', In (CStart j') (qu (base x) c)) \/ (forall p, Wr tr p -> relq (tr ++ B) (MQ c) p)) ->
-  (forall c, hlp c -> job (th (base x') c) <> (-1)%Z ->
-     job (th (base x) c) <> (-1)%Z \/ (forall p, Wr tr p -> seenby (tr ++ B) c p)) ->
-  (forall c, hlp c -> 1 <= acks c (qu (base x') 0) ->
-     1 <= acks c (qu (base x) 0) \/ (forall p, Rd tr c p -> relq (tr ++ B) (MQ 0) p)) ->
-  (forall c, hlp c -> StopP (base x') -> ae (th (base x') c) = se (th (base x') 0) ->
-     acks c (qu (base x') 0) = 0 ->
-     (StopP (base x) /\ ae (th (base x) c) = se (th (base x) 0) /\ acks c (qu (base x) 0) = 0) \/
-     (forall p, Rd tr c p -> seenby (tr ++ B) 0 p)) ->
+  (forall c, hlp c -> (job (th (base x') c) <> (-1)%Z \/ fwdstart (pc (th (base x') c)) = true) ->
+     (job (th (base x) c) <> (-1)%Z \/ fwdstart (pc (th (base x) c)) = true) \/
+     (forall p, Wr tr p -> seenby (tr ++ B) c p)) ->
+  (forall c pp, hlp c -> parent c = Some pp -> 1 <= acks c (qu (base x') pp) ->
+     1 <= acks c (qu (base x) pp) \/ (forall p, RdSub tr c p -> relq (tr ++ B) (MQ pp) p)) ->
+  (forall c pp, hlp c -> parent c = Some pp -> ackdone (base x') pp c ->
+     ackdone (base x) pp c \/ (forall p, RdSub tr c p -> seenby (tr ++ B) pp p)) ->
   (master_idle (base x') ->
      master_idle (base x) \/ (forall c p, hlp c -> Rd tr c p -> seenby (tr ++ B) 0 p)) ->
   (search (base x') = false ->
@@ -79,17 +88,20 @@ Lemma HR_mono : forall x tr x' B c0, HR x tr ->
 Proof.
   intros x tr x' B c0 H NW HR0 RT Heo Ha2 Ha3 Hb1 Hb2 Hb3 Hb4.
   assert (WO : forall p, Wr (tr ++ B) p -> Wr tr p) by (intros p; apply Wr_app_old; auto).
-  (* a read position of helper c in the new trace is an old one, or c = c0 reads now *)
-  assert (RO : forall c p, hlp c -> Rd (tr ++ B) c p ->
-            Rd tr c p \/ (length tr <= p /\ c = c0 /\ (forall p, Wr tr p -> seenby tr c0 p) /\
-                          acks c0 (qu (base x') 0) = 0 /\
-                          ~ (StopP (base x') /\ ae (th (base x') c0) = se (th (base x') 0)) /\
-                          ~ master_idle (base x') /\ search (base x') = true)).
-  { intros c p Hc R. destruct (HR0 c Hc) as [Hn|(E & Hs)].
+  (* a read position of helper d in the new trace is an old one, or d = c0 reads now *)
+  assert (RO : forall d p, hlp d -> Rd (tr ++ B) d p ->
+            Rd tr d p \/ (length tr <= p /\ d = c0 /\ CondRead x' tr c0)).
+  { intros d p Hd R. destruct (HR0 d Hd) as [Hn|(E & Hs)].
     - left. eapply Rd_app_old; eauto.
     - destruct (Nat.lt_ge_cases p (length tr)) as [L|L].
       + left. destruct R as (e & He & Ht & Hs'). rewrite nth_app_l in He by auto. exists e; auto.
       + right. split; auto. }
+  assert (ROS : forall c p, hlp c -> RdSub (tr ++ B) c p ->
+            RdSub tr c p \/ (below c c0 /\ CondRead x' tr c0)).
+  { intros c p Hc (d & Bd & Rd'). pose proof (below_hlp N parent c d Hc Bd) as Hd.
+    destruct (RO d p Hd Rd') as [Ro|(_ & -> & Cr)].
+    - left. exists d; auto.
+    - right; auto. }
   constructor.
   - exact Heo.
   - intros p e He Hw. destruct (app_case _ _ _ _ He) as [(L & Q)|(k & -> & Q)].
@@ -108,14 +120,15 @@ Proof.
     + destruct Hq as (e & He & Ht & _).
       destruct (app_case _ _ _ _ He) as [(L' & Q)|(k & -> & Q)]; [lia|].
       eapply seenby_po; eauto.
-  - intros c Hc Hk p Hp. destruct (RO c p Hc Hp) as [Hp'|(_ & -> & _ & Z & _)]; [|lia].
-    destruct (Hb1 c Hc Hk) as [Hk'|Hn]; auto. apply relq_app. eapply (r_b1 _ _ H); eauto.
-  - intros c Hc Hs Ha Hk p Hp. destruct (RO c p Hc Hp) as [Hp'|(_ & -> & _ & _ & Z & _)]; [|tauto].
-    destruct (Hb2 c Hc Hs Ha Hk) as [(S0 & A0 & K0)|Hn]; auto.
-    apply seenby_app. eapply (r_b2 _ _ H); eauto.
-  - intros Hi c p Hc Hp. destruct (RO c p Hc Hp) as [Hp'|(_ & -> & _ & _ & _ & Z & _)]; [|tauto].
+  - intros c pp Hc Hpp Hk p Hp.
+    destruct (ROS c p Hc Hp) as [Hp'|(Bc & _ & Z & _)]; [|destruct (Z c pp Hc Hpp Bc); lia].
+    destruct (Hb1 c pp Hc Hpp Hk) as [Hk'|Hn]; auto. apply relq_app. eapply (r_b1 _ _ H); eauto.
+  - intros c pp Hc Hpp Hd p Hp.
+    destruct (ROS c p Hc Hp) as [Hp'|(Bc & _ & Z & _)]; [|destruct (Z c pp Hc Hpp Bc); tauto].
+    destruct (Hb2 c pp Hc Hpp Hd) as [Hd'|Hn]; auto. apply seenby_app. eapply (r_b2 _ _ H); eauto.
+  - intros Hi c p Hc Hp. destruct (RO c p Hc Hp) as [Hp'|(_ & _ & _ & _ & Z & _)]; [|tauto].
     destruct (Hb3 Hi) as [Hi'|Hn]; eauto. apply seenby_app. eapply (r_b3 _ _ H); eauto.
-  - intros Hs c p Hc Hp. destruct (RO c p Hc Hp) as [Hp'|(_ & -> & _ & _ & _ & _ & Z)]; [|congruence].
+  - intros Hs c p Hc Hp. destruct (RO c p Hc Hp) as [Hp'|(_ & _ & _ & _ & _ & Z)]; [|congruence].
     destruct (Hb4 Hs) as [Hs'|Hn]; eauto. apply relq_app. eapply (r_b4 _ _ H); eauto.
   - intros p q c Hpq Hc Hp Hq. apply WO in Hq. pose proof (Wr_lt _ _ Hq).
     assert (Hp' : Rd tr c p).
@@ -136,10 +149,12 @@ Lemma HR_write : forall x tr x' B, HR x tr -> Inv N parent (base x) -> master_id
   HR x' (tr ++ B).
 Proof.
   intros x tr x' B H IV Hi Eth Equ NH WT HB Heo Hs.
-  pose proof (no_stale_search_inv N parent (flat_tree N parent Hflat) (base x) IV Hi) as NS.
+  pose proof (no_stale_search_inv N parent Htree (base x) IV Hi) as NS.
   assert (RO : forall c p, hlp c -> Rd (tr ++ B) c p -> Rd tr c p).
   { intros c p Hc R. eapply Rd_app_old; eauto. intros k e Hk Ht.
     destruct (sel opt_or_tt e) eqn:E; auto. exfalso. apply (NH k e Hk E). now rewrite Ht. }
+  assert (ROS : forall c p, hlp c -> RdSub (tr ++ B) c p -> RdSub tr c p).
+  { intros c p Hc (d & Bd & R). exists d. split; auto. apply RO; auto. eapply below_hlp; eauto. }
   constructor.
   - exact Heo.
   - intros p e He Hw. destruct (app_case _ _ _ _ He) as [(L & Q)|(k & -> & Q)].
@@ -150,15 +165,18 @@ Proof.
     + exfalso. eapply NH; eauto.
   - intros c j Hc Hin. exfalso. rewrite Equ in Hin.
     destruct (NS c Hc) as (_ & _ & _ & Q & _). destruct (Q _ Hin) as [X|(f & X)]; discriminate.
-  - intros c Hc Hj. exfalso. rewrite Eth in Hj. destruct (NS c Hc) as (J & _). congruence.
+  - intros c Hc Hj. exfalso. rewrite Eth in Hj. destruct (NS c Hc) as (J & _ & _ & _ & _ & _ & F & _).
+    destruct Hj as [Hj|Hj]; [congruence|].
+    destruct (pc (th (base x) c)) eqn:Hpc; try discriminate. destruct w; try discriminate.
+    specialize (F _ _ _ eq_refl). discriminate.
   - intros p q c Hpq Hp Hc Hq. apply RO in Hq; auto. pose proof (Rd_lt _ _ _ Hq).
     assert (Hp' : Wr tr p).
     { destruct Hp as (e & He & Hw). rewrite nth_app_l in He by lia. exists e; auto. }
     apply hb_app. eapply (r_A _ _ H); eauto.
-  - intros c Hc Hk p Hp. apply RO in Hp; auto. rewrite Equ in Hk.
+  - intros c pp Hc Hpp Hk p Hp. apply ROS in Hp; auto. rewrite Equ in Hk.
     apply relq_app. eapply (r_b1 _ _ H); eauto.
-  - intros c Hc Hst. exfalso. unfold StopP in Hst. rewrite Eth in Hst.
-    unfold master_idle in Hi. congruence.
+  - intros c pp Hc Hpp Hd p Hp. apply ROS in Hp; auto. unfold ackdone in Hd. rewrite Eth, Equ in Hd.
+    apply seenby_app. eapply (r_b2 _ _ H); eauto.
   - intros _ c p Hc Hp. apply RO in Hp; auto. apply seenby_app. eapply (r_b3 _ _ H); eauto.
   - intros S0 c p Hc Hp. apply RO in Hp; auto. apply relq_app. eapply (r_b4 _ _ H); eauto.
   - intros p q c Hpq Hc Hp (e & He & Hw). apply RO in Hp; auto.
@@ -325,6 +343,310 @@ Proof.
   - intros c Hc Hs Ha Hk. left. unfold StopP in *. rewrite Eth, Equ in *. auto.
   - intros Hi. left. unfold master_idle in *. now rewrite Eth in Hi.
   - intros S0. left. congruence.
+Qed.
+
+(** ---- a thread transition ---- *)
+Lemma read_step : forall s t s', lstep s (LT (S t) APollEmpty) = Some s' -> reads_now s (S t) = true ->
+  s' = set_th s (S t) (set_pc (th s (S t)) (PPoll (KSearch (job (th s (S t)))))).
+Proof.
+  intros s t s' H R. unfold reads_now in R.
+  destruct (pc (th s (S t))) eqn:Hpc; try discriminate. destruct k; try discriminate.
+  apply andb_prop in R. destruct R as (R1 & R2).
+  unfold Workers.lstep, step in H. destruct (Nat.leb (S t) N); [|discriminate].
+  destruct (parent (S t)); [|discriminate]. unfold step_h in H. rewrite Hpc in H.
+  destruct (qu s (S t)); [|discriminate H].
+  apply negb_true_iff in R1. rewrite R1 in H. rewrite R2 in H. now injection H as <-.
+Qed.
+
+Lemma rdquit_pc : forall s s', lstep s (LT 0 ARdQuit) = Some s' -> quitf s = false -> pc (th s' 0) = MRdSearch.
+Proof. intros s s' H Q. step_inv_fine H; crunch; congruence. Qed.
+Lemma finalnotify_pc : forall s s', lstep s (LT 0 ANotifySelf) = Some s' -> pc (th s 0) = MFinalNotify ->
+  pc (th s' 0) = MClear.
+Proof. intros s s' H Q. step_inv_fine H; crunch; congruence. Qed.
+Lemma clear_pc : forall s s', lstep s (LT 0 AClear) = Some s' -> pc (th s 0) = MClear.
+Proof. intros s s' H. step_inv_fine H; auto. Qed.
+Lemma pop_block : forall s t, act_events parent s t APop =
+  [Acq t (MQ t); Acc t (LQueue t) false Plain; Acc t (LQueue t) true Plain; Rel t (MQ t)].
+Proof. reflexivity. Qed.
+
+Lemma HR_thread : forall x tr t a s', xreach x tr -> HR x tr ->
+  lstep (base x) (LT t a) = Some s' ->
+  ((LT t a = LT 0 ARdSearch \/ LT t a = LT 0 AClear) -> xeo x = EOIdle) ->
+  HR (mkX s' (xpend x) (xfin x) (eo_next x (LT t a))) (tr ++ act_events parent (base x) t a).
+Proof.
+  intros x tr t a s' XR H Hl Hidle.
+  pose proof (flat_tree N parent Hflat) as Htree.
+  pose proof (xreach_HI N parent x tr XR) as HIv.
+  pose proof (reach_inv N parent Htree _ (xreach_reach x tr XR)) as IV.
+  destruct IV as (I & J & L).
+  pose proof (lstep_tid N parent _ _ _ _ Hl) as HtN.
+  set (s := base x) in *. set (B := act_events parent s t a).
+  assert (BT : forall k e, nth_error B k = Some e -> ev_tid e = t /\ wopt e = false).
+  { intros k e A. destruct (act_block s t a k e A) as (? & ? & _). auto. }
+  (* the engine thread's part of the state, and the new setOptions status *)
+  assert (Heo : eo_next x (LT t a) <> EOIdle -> pc (th s' 0) = MRdSearch \/ pc (th s' 0) = MClear).
+  { intros E.
+    assert (Keep : eo_next x (LT t a) = xeo x -> pc (th s' 0) = MRdSearch \/ pc (th s' 0) = MClear).
+    { intros E'. rewrite E' in E. pose proof (r_eo _ _ H E) as P.
+      destruct t as [|t].
+      - exfalso. destruct (master_step_pc _ _ _ Hl) as (M1 & M2).
+        destruct P as [P|P]; [rewrite (M1 P) in *|rewrite (M2 P) in *];
+          rewrite Hidle in E; auto.
+      - assert (E0 : th s' 0 = th s 0).
+        { apply (other_frame N parent s (LT (S t) a) s' 0 Hl). intros a' X. discriminate. }
+        rewrite E0. exact P. }
+    unfold eo_next in *. destruct t as [|t]; auto. destruct a; auto.
+    - destruct (pc (th (base x) 0)) eqn:Hp; auto. right. apply (finalnotify_pc _ _ Hl Hp).
+    - destruct (quitf (base x)) eqn:Hq; auto. left. apply (rdquit_pc _ _ Hl Hq). }
+  destruct (match a with APollEmpty => negb (Nat.eqb t 0) && reads_now s t | _ => false end) eqn:Erd.
+  - (* a helper enters doSearch and reads *)
+    destruct a; try discriminate. apply andb_prop in Erd. destruct Erd as (Et & Er).
+    apply negb_true_iff, Nat.eqb_neq in Et. destruct t as [|t]; [congruence|].
+    assert (Hc : hlp (S t)) by (unfold WorkersInv.helper; lia).
+    pose proof (read_step _ _ _ Hl Er) as Es'.
+    destruct (reader_facts s (S t) (conj I (conj J L)) Hc Er) as (Rj & Ra & Rs & Ri & Rse).
+    assert (Eq : qu s' = qu s) by (rewrite Es'; reflexivity).
+    assert (Esr : search s' = search s) by (rewrite Es'; reflexivity).
+    assert (Eth : forall c, job (th s' c) = job (th s c) /\ ae (th s' c) = ae (th s c) /\
+                            se (th s' c) = se (th s c) /\ (c <> S t -> th s' c = th s c)).
+    { intros c. rewrite Es'. simpl. unfold upd. destruct (Nat.eqb_spec c (S t)) as [->|]; simpl; auto.
+      repeat split; auto. congruence. }
+    assert (E0 : th s' 0 = th s 0) by (apply (Eth 0); discriminate).
+    apply (HR_mono x tr _ B (S t) H); cbn [base xeo]; auto.
+    + intros k e A. now destruct (BT k e A).
+    + intros c Hc'. destruct (Nat.eq_dec c (S t)) as [->|Hne].
+      * right. split; auto. split; [apply (r_a3 _ _ H (S t) Hc Rj)|].
+        split; [rewrite Eq; exact Ra|]. split; [|split].
+        -- intros (S1 & A1). apply Rs. unfold StopP in *. rewrite E0 in *.
+           destruct (Eth (S t)) as (_ & A2 & _). rewrite A2 in A1. auto.
+        -- unfold master_idle in *. now rewrite E0.
+        -- congruence.
+      * left. intros k e A T. destruct (BT k e A) as (T' & _). congruence.
+    + intros k e A Ss _. destruct (act_block s (S t) APollEmpty k e A) as (_ & _ & X). now destruct (X Ss).
+    + intros c j _ Hin. left. exists j. now rewrite Eq in Hin.
+    + intros c _ Hj. left. destruct (Eth c) as (Jc & _). now rewrite Jc in Hj.
+    + intros c _ Hk. left. now rewrite Eq in Hk.
+    + intros c _ S1 A1 K1. left. unfold StopP in *. rewrite E0, Eq in *.
+      destruct (Eth c) as (_ & A2 & _). rewrite A2 in A1. auto.
+    + intros Hi. left. unfold master_idle in *. now rewrite E0 in Hi.
+    + intros S0. left. congruence.
+  - (* every other transition: no helper access to the options / table *)
+    assert (NRall : forall c, hlp c -> NR B c).
+    { intros c Hc k e A T. destruct (act_block s t a k e A) as (T' & _ & X).
+      destruct (sel opt_or_tt e) eqn:Ss; auto. exfalso.
+      assert (c <> 0) by (unfold WorkersInv.helper in Hc; lia).
+      destruct (X eq_refl) as (_ & [Z|[Z|[Z|(Z1 & Z2)]]]).
+      - congruence.
+      - subst a. pose proof (lstep_master_only N parent _ _ _ _ Hl (or_introl eq_refl)). congruence.
+      - subst a. pose proof (lstep_master_only N parent _ _ _ _ Hl (or_intror (or_introl eq_refl))). congruence.
+      - subst a. rewrite Z2 in Erd. assert (Nat.eqb t 0 = false) by (apply Nat.eqb_neq; congruence).
+        rewrite H1 in Erd. discriminate. }
+    apply (HR_mono x tr _ B 0 H); cbn [base xeo]; auto.
+    + intros k e A. now destruct (BT k e A).
+    + intros k e A Ss Hh. exfalso. destruct (BT k e A) as (T & _).
+      rewrite T in Hh. rewrite (NRall t Hh k e A T) in Ss. discriminate.
+    + (* START_SEARCH pushed by the busy engine thread *)
+      intros c j Hc Hin.
+      destruct (start_queue_frame N parent Hflat s (LT t a) s' c j I Hc Hl Hin) as [X|(X & Hb)].
+      * left. eauto.
+      * right. injection X as -> ->. intros p Hp.
+        apply (relq_make tr B 0 (MQ c) p 5); [|reflexivity].
+        apply (busy_sees_writes x tr HIv H Hb p Hp).
+    + (* START_SEARCH taken by the helper *)
+      intros c Hc Hj.
+      destruct (job_frame N parent Hflat s (LT t a) s' c I Hc Hl Hj) as [X|(X & j & r & Hq)].
+      * left; auto.
+      * right. injection X as -> ->. intros p Hp.
+        apply (relq_seen tr B (MQ c) p 0 c); [|reflexivity].
+        apply (r_a2 _ _ H c j Hc); auto. fold s. rewrite Hq. left; auto.
+    + (* STOP_ACK pushed by the helper *)
+      intros c Hc Hk.
+      destruct (ack_frame N parent Hflat s (LT t a) s' c I Hc Hl Hk) as [X|X].
+      * left; auto.
+      * right. injection X as -> ->. intros p (e & He & Te & Se).
+        apply (relq_make tr B c (MQ 0) p 5); [|reflexivity]. eapply seenby_own; eauto.
+    + (* STOP_ACK taken by the engine thread *)
+      intros c Hc S1 A1 K1.
+      destruct (acked_frame N parent Hflat s (LT t a) s' c I Hc Hl S1 A1 K1) as [X|(X & r & Hq)].
+      * left; auto.
+      * right. injection X as -> ->. intros p Hp.
+        apply (relq_seen tr B (MQ 0) p 0 0); [|reflexivity].
+        apply (r_b1 _ _ H c Hc); auto. fold s. rewrite Hq, acks_cons. simpl. rewrite Nat.eqb_refl. lia.
+    + (* the barrier *)
+      intros Hi. destruct (idle_frame N parent s (LT t a) s' I Hl Hi) as [X|(X & Hp & Hs & Hq)].
+      * left; auto.
+      * right. intros c p Hc Hr. apply seenby_app.
+        unfold hasStopAck in Hs. apply andb_prop in Hs. destruct Hs as (Hw & _). apply Z.eqb_eq in Hw.
+        destruct (child_settled N parent s 0 c I (Nat.le_0_l _) Hw Hc (Hflat c Hc)) as (A1 & _ & K1).
+        apply (r_b2 _ _ H c Hc); auto. unfold StopP. fold s. now rewrite Hp.
+    + (* search := false *)
+      intros S0. destruct (lstep_search N parent _ _ _ Hl) as [X|[(p' & X & _)|(X & _)]].
+      * left. fold s. rewrite <- X. exact S0.
+      * discriminate.
+      * right. injection X as -> ->. intros c p Hc Hr.
+        apply (relq_make tr B 0 ME p 2); [|reflexivity].
+        assert (Hi : master_idle (base x)) by (unfold master_idle; fold s; now rewrite (clear_pc _ _ Hl)).
+        apply (r_b3 _ _ H Hi c p Hc Hr).
+Qed.
+
+(** ---- go: the UCI thread bumps the table generation ---- *)
+Lemma HR_go : forall x tr p s', xreach x tr -> HR x tr ->
+  lstep (base x) (LE (EGo p)) = Some s' ->
+  HR (mkX s' (xpend x) (xfin x) (xeo x)) (tr ++ env_events N true (EGo p)).
+Proof.
+  intros x tr p s' XR H Hl.
+  pose proof (flat_tree N parent Hflat) as Htree.
+  pose proof (reach_inv N parent Htree _ (xreach_reach x tr XR)) as IV.
+  destruct IV as (I & J & L).
+  assert (Es' : search (base x) = false /\ s' = set_epc (set_ponder (set_search (base x) true) p) ENotifyGo).
+  { simpl in Hl. destruct (epc (base x)); try discriminate.
+    destruct (search (base x) || quitf (base x)) eqn:O; try discriminate.
+    apply orb_false_iff in O. destruct O. injection Hl as <-. auto. }
+  destruct Es' as (S0 & ->).
+  pose proof (nosearch_idle _ L S0) as Hi.
+  set (B := env_events N true (EGo p)). pose proof (go_block p) as HB. fold B in HB.
+  apply (HR_write x tr _ B H (conj I (conj J L)) Hi); cbn [base xeo]; auto.
+  - intros k e A _ Hh. rewrite HB in A. enum_nth A; simpl in Hh; apply U_not_hlp; auto.
+  - intros k e A _. right. rewrite HB in A. enum_nth A; reflexivity.
+  - intros c q k e Hc Hr A W.
+    assert (k = 8) by (rewrite HB in A; enum_nth A; simpl in W; try discriminate; reflexivity). subst k.
+    pose proof (r_b4 _ _ H S0 c q Hc Hr) as R.
+    eapply t_trans; [apply (relq_acq tr B ME q 1 U R); rewrite HB; reflexivity|].
+    apply (hb_po (tr ++ B) (length tr + 1) (length tr + 8) (Acq U ME) e); [lia| | |].
+    + rewrite nth_app_r, HB. reflexivity.
+    + now rewrite nth_app_r.
+    + rewrite HB in A. simpl in A. injection A as <-. reflexivity.
+  - apply (r_eo _ _ H).
+Qed.
+
+Lemma HR_step : forall x tr xl x', xreach x tr -> HR x tr -> xstep x xl = Some x' ->
+  HR x' (tr ++ xevents x xl).
+Proof.
+  intros x tr xl x' XR H Hst.
+  pose proof (flat_tree N parent Hflat) as Htree.
+  destruct xl as [lb| | | |].
+  - destruct (xstep_XL N parent _ _ _ Hst) as (s' & Hl & -> & Hgo & Hidle).
+    change (xevents x (XL lb)) with (label_events N parent true (base x) lb).
+    destruct lb as [t a|e].
+    + apply (HR_thread x tr t a s' XR H Hl Hidle).
+    + destruct (eact_is_go e) as [(p & ->)|Hng].
+      * apply (HR_go x tr p s' XR H Hl).
+      * assert (F : th s' = th (base x) /\ qu s' = qu (base x) /\ search s' = search (base x)).
+        { simpl in Hl. destruct e; try (exfalso; eapply Hng; eauto; fail); simpl in Hl.
+          - destruct (epc (base x)); try discriminate; injection Hl as <-; auto.
+          - injection Hl as <-; auto.
+          - injection Hl as <-; auto.
+          - destruct (epc (base x)); try discriminate.
+            destruct (search (base x) || quitf (base x)); try discriminate. injection Hl as <-; auto. }
+        destruct F as (F1 & F2 & F3).
+        apply (HR_same x tr); cbn [base xeo]; auto.
+        -- intros k ev A. destruct (env_block e k ev Hng A) as (T & W & Ss). split; auto.
+           rewrite Ss. discriminate.
+        -- simpl. rewrite F1. apply (r_eo _ _ H).
+  - (* setoption *)
+    unfold Access.xstep in Hst. destruct (epc (base x)); try discriminate.
+    destruct (quitf (base x)); try discriminate. injection Hst as <-.
+    apply (HR_same x tr); cbn [base xeo]; auto.
+    + intros k e A. simpl in A. unfold notify_events in A. enum_nth A; split; auto; discriminate.
+    + apply (r_eo _ _ H).
+  - (* setOptions: take *)
+    unfold Access.xstep in Hst. destruct (xeo x) eqn:Eo; try discriminate.
+    assert (P : pc (th (base x) 0) = MRdSearch \/ pc (th (base x) 0) = MClear).
+    { apply (r_eo _ _ H). congruence. }
+    destruct (xpend x) eqn:Ep; injection Hst as <-; apply (HR_same x tr); cbn [base xeo]; auto.
+    all: intros k e A; simpl in A; rewrite Ep in A; enum_nth A; split; auto; discriminate.
+  - (* setOptions: apply *)
+    unfold Access.xstep in Hst. destruct (xeo x) eqn:Eo; try discriminate. injection Hst as <-.
+    pose proof (reach_inv N parent Htree _ (xreach_reach x tr XR)) as IV.
+    assert (P : pc (th (base x) 0) = MRdSearch \/ pc (th (base x) 0) = MClear).
+    { apply (r_eo _ _ H). congruence. }
+    assert (Hi : master_idle (base x)) by (unfold master_idle; destruct P as [-> | ->]; reflexivity).
+    apply (HR_write x tr _ _ H IV Hi); cbn [base xeo]; auto.
+    + intros k e A _ Hh. simpl in A. enum_nth A; simpl in Hh; unfold WorkersInv.helper in Hh; lia.
+    + intros k e A _. left. simpl in A. enum_nth A; reflexivity.
+    + intros c q k e Hc Hr A W. apply (seenby_po tr _ 0 q k e); auto.
+      * apply (r_b3 _ _ H Hi c q Hc Hr).
+      * simpl in A. enum_nth A; reflexivity.
+  - (* waitOptionsSet *)
+    unfold Access.xstep in Hst. destruct (xfin x); try discriminate. injection Hst as <-.
+    apply (HR_same x tr); auto.
+    + intros k e A. simpl in A. enum_nth A; split; auto; discriminate.
+    + apply (r_eo _ _ H).
+Qed.
+
+Lemma xreach_HR : forall x tr, xreach x tr -> HR x tr.
+Proof. induction 1; [apply HR_init | eapply HR_step; eauto]. Qed.
+
+(** ---- the theorems ---- *)
+
+(** every write of the option values / table geometry and every helper access to them are
+    ordered by happens-before, in whichever order they occur *)
+Theorem helper_reads_ordered : forall ls tr i j a b,
+  trace_of N parent true xinit ls = Some tr ->
+  i < j -> at_ tr i = Some a -> at_ tr j = Some b -> conflictb a b = true ->
+  sel opt_or_tt a = true -> (hlp (ev_tid a) \/ hlp (ev_tid b)) -> hb tr i j.
+Proof.
+  intros ls tr i j a b Htr Hij Ha Hb Hc Hs Hh. unfold trace_of in Htr.
+  destruct (xrun N parent true xinit ls) as [[xf tr']|] eqn:E; [|discriminate]. injection Htr as <-.
+  pose proof (xrun_xreach N parent ls xinit [] xf tr' (xr0 N parent) E) as R. simpl in R.
+  pose proof (xreach_HR _ _ R) as H. unfold at_ in *.
+  pose proof (conflict_sel _ _ _ Hc Hs) as Sb.
+  destruct (conflictb_inv a b Hc) as (t1 & l & w1 & k1 & t2 & w2 & k2 & -> & -> & Hne & _).
+  assert (Hw : w1 || w2 = true).
+  { simpl in Hc. repeat (apply andb_prop in Hc; destruct Hc as [Hc ?]). auto. }
+  simpl in Hs, Hh.
+  assert (Both : ~ (hlp t1 /\ hlp t2)).
+  { intros (H1 & H2).
+    pose proof (r_rt _ _ H i _ Ha Hs H1) as X1. pose proof (r_rt _ _ H j _ Hb Sb H2) as X2.
+    simpl in X1, X2. subst. discriminate. }
+  destruct Hh as [H1|H2].
+  - (* helper access first: it is a read, so the later one is a write *)
+    pose proof (r_rt _ _ H i _ Ha Hs H1) as X1. simpl in X1. subst w1. simpl in Hw. subst w2.
+    apply (r_B _ _ H i j t1 Hij H1).
+    + eexists; eauto.
+    + eexists; split; eauto.
+  - pose proof (r_rt _ _ H j _ Hb Sb H2) as X2. simpl in X2. subst w2.
+    rewrite orb_false_r in Hw. subst w1.
+    apply (r_A _ _ H i j t2 Hij); auto.
+    + eexists; split; eauto.
+    + eexists; eauto.
+Qed.
+
+(** every event belongs to the engine thread, a helper or the UCI thread *)
+Lemma xreach_tids : forall x tr, xreach x tr -> forall p e, nth_error tr p = Some e -> ev_tid e <= S N.
+Proof.
+  induction 1 as [|x tr xl x' R IH Hst]; intros p e A; [destruct p; discriminate|].
+  destruct (app_case _ _ _ _ A) as [(L & Q)|(k & -> & Q)]; [eapply IH; eauto|].
+  destruct xl as [lb| | | |].
+  - destruct (xstep_XL N parent _ _ _ Hst) as (s' & Hl & _).
+    change (xevents x (XL lb)) with (label_events N parent true (base x) lb) in Q.
+    destruct lb as [t a|ev].
+    + pose proof (lstep_tid N parent _ _ _ _ Hl). simpl in Q.
+      destruct (act_block _ _ _ _ _ Q) as (T & _). lia.
+    + simpl in Q. destruct (eact_is_go ev) as [(p0 & ->)|Hng].
+      * rewrite go_block in Q. enum_nth Q; simpl; unfold uci; lia.
+      * destruct (env_block ev k e Hng Q) as (T & _). rewrite T. unfold uci; lia.
+  - simpl in Q. unfold notify_events in Q. enum_nth Q; simpl; unfold uci; lia.
+  - simpl in Q. destruct (xpend x); enum_nth Q; simpl; lia.
+  - simpl in Q. enum_nth Q; simpl; lia.
+  - simpl in Q. enum_nth Q; simpl; unfold uci; lia.
+Qed.
+
+(** the model with a single-level communicator tree has no data race on any modelled location,
+    for any number of helper threads and any schedule *)
+Theorem model_drf_flat : forall ls tr,
+  trace_of N parent true xinit ls = Some tr -> ~ race tr.
+Proof.
+  intros ls tr Htr (i & j & a & b & Hij & Ha & Hb & Hc & _ & Hn).
+  destruct (model_drf_partial N parent ls tr i j a b Htr Hij Ha Hb Hc Hn) as (Hs & Hh).
+  apply Hn. apply (helper_reads_ordered ls tr i j a b Htr Hij Ha Hb Hc Hs).
+  assert (TI : forall p e, nth_error tr p = Some e -> ev_tid e <= S N).
+  { unfold trace_of in Htr.
+    destruct (xrun N parent true xinit ls) as [[xf tr']|] eqn:E; [|discriminate]. injection Htr as <-.
+    pose proof (xrun_xreach N parent ls xinit [] xf tr' (xr0 N parent) E) as R. simpl in R.
+    apply (xreach_tids _ _ R). }
+  unfold at_ in *. pose proof (TI _ _ Ha). pose proof (TI _ _ Hb).
+  unfold WorkersInv.helper, uci in *. destruct Hh as [(X1 & X2)|(X1 & X2)]; [left|right]; lia.
 Qed.
 
 End R.
